@@ -362,7 +362,14 @@ pub fn run_c15(ctx: &mut Ctx) {
         }
         let mut rng = Rng::for_case(ctx.args.seed, "deque-c15", r);
         let backing = rng.usize_below(BACKINGS.len());
-        let n = if ctx.args.miri() { 40 } else { rng.range(random_ops / 4, random_ops) };
+        let n = if ctx.args.miri() {
+            40
+        } else if rng.chance(1, 200) {
+            // occasionally a long history (accumulated state, heap growth)
+            rng.range(4000, 12000)
+        } else {
+            rng.range(random_ops / 4, random_ops)
+        };
         let ops = gen_random_deque_ops(&mut rng, n);
         ctx.begin_case(idx, || deque_case_json("random", backing, idx, &ops));
         let mut run = DequeRun { slides: 0, nonzero_prefix: 0, max_len: 0, heap_transition: false };
@@ -854,7 +861,13 @@ pub fn run_c16(ctx: &mut Ctx) {
         }
         let mut rng = Rng::for_case(ctx.args.seed, "deque-c16", r);
         let backing = rng.usize_below(S_BACKINGS.len());
-        let n = if ctx.args.miri() { 30 } else { rng.range(random_ops / 4, random_ops) };
+        let n = if ctx.args.miri() {
+            30
+        } else if rng.chance(1, 200) {
+            rng.range(1500, 4000)
+        } else {
+            rng.range(random_ops / 4, random_ops)
+        };
         let ops = gen_random_sorted_ops(&mut rng, n);
         ctx.begin_case(idx, || sorted_case_json("random", backing, idx, &ops));
         let mut run = SortedRun::default();
